@@ -100,10 +100,11 @@ pub mod probe {
 /// Consumers that go through the specialisable iterator methods (nth, nth_back, fold, rfold,
 /// try_fold, last, len-based adaptors). `consume_de!` needs DoubleEndedIterator + ExactSizeIterator
 /// at compile time, `consume_fwd!` only Iterator. Returns None for a consumer that does not apply.
-pub const CONSUMERS: [&str; 20] = [
+pub const CONSUMERS: [&str; 22] = [
     "nth(k)+rest", "nth_back(k)+rest", "take(k).rev()", "rev().skip(k)", "skip(k).rev()", "step_by(k+1)", "rev().step_by(k+1)", "last()",
     "for_each", "rev().for_each", "by_ref().take(k)+rest", "by_ref().rev().take(k)+rest", "peekable: peek, nth(k), next_back, rest", "step_by(k+1).rev()", "skip(k).step_by(2)",
     "next, nth_back(k), len-check, rest", "next, rev().skip(k)", "next_back, nth(k), len-check, rest", "next, next_back, rev().step_by(k+1)", "next, next, nth_back(k), nth_back(k), len-check, rest",
+    "take k from the front, then count() against len()", "take k from the back, then count() against len()",
 ];
 #[macro_export]
 macro_rules! consume_de {
@@ -233,6 +234,30 @@ macro_rules! consume_de {
                 let rest: Vec<_> = it.collect();
                 assert!(l == rest.len(), "after 2x next, 2x nth_back({}): len() = {} but {} elements follow", k, l, rest.len());
                 v.extend(rest);
+                Some(v)
+            }
+            20 => {
+                let mut v = Vec::new();
+                for _ in 0..k {
+                    if let Some(x) = it.next() {
+                        v.push(x);
+                    }
+                }
+                let l = it.len();
+                let c = it.count();
+                assert!(l == c, "after {} next(): len() = {} but count() = {}", k, l, c);
+                Some(v)
+            }
+            21 => {
+                let mut v = Vec::new();
+                for _ in 0..k {
+                    if let Some(x) = it.next_back() {
+                        v.push(x);
+                    }
+                }
+                let l = it.len();
+                let c = it.count();
+                assert!(l == c, "after {} next_back(): len() = {} but count() = {}", k, l, c);
                 Some(v)
             }
             _ => None,
